@@ -4,7 +4,9 @@ import Driver.Life
 import Driver.C09
 import Driver.Boxing
 import Driver.C08
+import Driver.SpawnClean
 import Driver.Early
+import Driver.EarlyStep
 import Driver.Registry
 import Driver.Pg
 import Driver.C16
@@ -34,7 +36,9 @@ def main (args : List String) : IO UInt32 := do
       | "c02-rpc" => Driver.C09.runC02 ops impl
       | "c02-box" => Driver.BoxingD.run ops impl
       | "c08" => Driver.C08.run ops impl
+      | "c08-clean" => Driver.SpawnCleanD.run ops impl
       | "c07-early" => Driver.EarlyD.run ops impl
+      | "c07-earlystep" => Driver.EarlyStepD.run ops impl
       | "registry" => Driver.Registry.run ops impl
       | "pg" => Driver.Pg.run ops impl
       | "c16" => Driver.C16.run ops impl
